@@ -299,8 +299,14 @@ class AST2SCFGTransformer:
         # Assert that the code handed in was a function, we can only transform
         # functions.
         assert isinstance(self.tree[0], ast.FunctionDef)
+        # Exactly one function can be transformed, anything following it
+        # would silently end up in the blocks of that function.
+        if len(self.tree) != 1:
+            raise NotImplementedError(
+                "Only a single function definition can be transformed"
+            )
         # Run recursive code generation.
-        self.codegen(self.tree)
+        self.handle_function_def(self.tree[0])
         # Prune if requested.
         if self.prune:
             _ = self.blocks.prune_unreachable()
@@ -332,9 +338,10 @@ class AST2SCFGTransformer:
 
     def handle_ast_node(self, node: type[ast.AST] | ast.stmt) -> None:
         """Dispatch an AST node to handle."""
-        if isinstance(node, ast.FunctionDef):
-            self.handle_function_def(node)
-        elif isinstance(
+        # Note: function definitions are not dispatched here, the (single)
+        # top-level function is handled by transform() and nested function
+        # definitions are not supported.
+        if isinstance(
             node,
             (
                 ast.AugAssign,
